@@ -92,11 +92,16 @@ def cutsOfKey (found : List (Key × Found)) (k : Key) : Int :=
   | some fnd => (fnd.scaffolds.length : Int) - 1
   | none => 0
 
-theorem cutRemaining_fold (l : List Key) (b b' : Build)
-    (h : l.foldlM (fun (b : Build) k =>
-      match dGet? b.found k with
-      | some fnd => cutFragments b fnd
-      | none => pure b) b = .ok b') :
+/-- loop body of `cut_remaining_fragments` -/
+def cutStep (b : Build) (k : Key) : R Build :=
+  match dGet? b.found k with
+  | some fnd => cutFragments b fnd
+  | none => pure b
+
+theorem cutRemaining_eq (b : Build) :
+    cutRemaining b = (do let b ← b.multi.foldlM cutStep b; pure { b with multi := [] }) := rfl
+
+theorem cutRemaining_fold (l : List Key) (b b' : Build) (h : l.foldlM cutStep b = .ok b') :
     b'.cuts = b.cuts + sumInts (l.map (cutsOfKey b.found)) ∧ b'.found = b.found := by
   induction l generalizing b with
   | nil =>
@@ -104,38 +109,35 @@ theorem cutRemaining_fold (l : List Key) (b b' : Build)
     subst h; simp [sumInts]
   | cons k l ih =>
     simp only [List.foldlM_cons] at h
-    cases hk : dGet? b.found k with
-    | none =>
-      rw [hk] at h
-      simp only [bind, Except.bind, pure, Except.pure] at h
-      obtain ⟨h1, h2⟩ := ih b h
-      refine ⟨?_, h2⟩
-      simp only [List.map_cons, sumInts, cutsOfKey, hk]
-      rw [h1]; omega
-    | some fnd =>
-      rw [hk] at h
-      simp only [] at h
-      cases hc : cutFragments b fnd with
-      | error e => rw [hc] at h; simp [bind, Except.bind] at h
-      | ok b1 =>
-        rw [hc] at h
-        simp only [bind, Except.bind] at h
-        obtain ⟨c1, c2⟩ := cutFragments_cuts b b1 fnd hc
-        obtain ⟨h1, h2⟩ := ih b1 h
-        refine ⟨?_, h2.trans c2⟩
+    cases hs : cutStep b k with
+    | error e => rw [hs] at h; simp [bind, Except.bind] at h
+    | ok b1 =>
+      rw [hs] at h
+      simp only [bind, Except.bind] at h
+      obtain ⟨h1, h2⟩ := ih b1 h
+      unfold cutStep at hs
+      cases hk : dGet? b.found k with
+      | none =>
+        rw [hk] at hs
+        simp only [pure, Except.pure, Except.ok.injEq] at hs
+        subst hs
+        refine ⟨?_, h2⟩
         simp only [List.map_cons, sumInts, cutsOfKey, hk]
+        rw [h1]; omega
+      | some fnd =>
+        rw [hk] at hs
+        obtain ⟨c1, c2⟩ := cutFragments_cuts b b1 fnd hs
+        refine ⟨?_, h2.trans c2⟩
+        simp only [List.map_cons, sumInts]
         rw [h1, c1, c2]
-        simp only [cutsOfKey]
+        simp only [cutsOfKey, hk]
         omega
 
 /-- `cut_remaining_fragments`: the counter grows by Σ (pieces − 1) over the multiply-found contigs -/
 theorem cutRemaining_cuts (b b' : Build) (h : cutRemaining b = .ok b') :
     b'.cuts = b.cuts + sumInts (b.multi.map (cutsOfKey b.found)) := by
-  unfold cutRemaining at h
-  cases hf : b.multi.foldlM (fun (b : Build) k =>
-      match dGet? b.found k with
-      | some fnd => cutFragments b fnd
-      | none => pure b) b with
+  rw [cutRemaining_eq] at h
+  cases hf : b.multi.foldlM cutStep b with
   | error e => rw [hf] at h; simp [bind, Except.bind] at h
   | ok b1 =>
     rw [hf] at h
